@@ -820,10 +820,23 @@ fn mk(c: &Cfg) -> Result<Final, String> {
                     FlagOp::Urg(n) => t.urg(*n),
                 };
             }
+            // an options call replaces whatever an earlier call set: every configured call is preceded by
+            // another one with different options, which must leave no trace
+            let pre = [
+                TcpOptionElement::WindowScale(3),
+                TcpOptionElement::Noop,
+                TcpOptionElement::MaximumSegmentSize(1200),
+            ];
             let r = match opts {
                 OptC::None => Ok(t),
-                OptC::Raw(b) => t.options_raw(b),
-                OptC::El(e) => t.options(e),
+                OptC::Raw(b) => match t.options(&pre) {
+                    Ok(t) => t.options_raw(b),
+                    Err(e) => Err(e),
+                },
+                OptC::El(e) => match t.options_raw(&[1, 1, 1, 1, 1, 1, 1, 1]) {
+                    Ok(t) => t.options(e),
+                    Err(e) => Err(e),
+                },
             };
             match r {
                 Ok(t) => Final::Tcp(t),
